@@ -16,7 +16,7 @@ VARIABLES d, calls, p
 vars == <<d, calls, p>>
 
 AttrVals == IF Rich THEN {"lo", "min", "in", "max", "hi"} ELSE {"lo", "in", "hi"}
-ClockVals == IF Rich THEN {"below", "min", "one", "in", "max", "above"} ELSE {"below", "one", "in", "above"}     \* "one": exactly 1.0, the rate a fast path may take for "nothing set"
+ClockVals == IF Rich THEN {"neg", "zero", "below", "min", "one", "in", "max", "above"} ELSE {"zero", "below", "one", "in", "above"}     \* "one": exactly 1.0, the rate a fast path may take for "nothing set"
 
 SetterCalls ==
   {[f |-> "mods", v |-> m, w |-> FALSE] : m \in {"NM", "HR", "HDDT"}}
@@ -52,7 +52,7 @@ Init == IF Aspect = "setters" THEN InitSetters ELSE InitEntry
 Next == IF Aspect = "setters" THEN NextSetters ELSE NextEntry
 
 -----------------------------------------------------------------------------
-ClampInv == \A f \in DFields : d[f].v \notin {"below", "above", "lo", "hi"}
+ClampInv == \A f \in DFields : d[f].v \notin {"below", "zero", "neg", "above", "lo", "hi"}
 RoundTripInv == RoundTrip(d) = d
 (* last write wins and independent setters commute: the Difficulty is a function of the last call per field *)
 RECURSIVE LastCall(_, _, _)
